@@ -148,7 +148,7 @@ def render_file(assign, callables):
     return "\n".join(lines) + "\n"
 
 
-def load(cli=None, env=None, file=None, fw=None, conf_path=None, cli_conf=None, env_conf=None, reload_to=None, no_app=False):
+def load(cli=None, env=None, file=None, fw=None, conf_path=None, cli_conf=None, env_conf=None, reload_to=None, no_app=False, env_raw=None):
     """One real configuration load.  cli/env: token lists; file: text of ./gunicorn.conf.py (or of
     conf_path); fw: dict for init().  Returns ('ok', {name: value}) or ('error', text)."""
     st = _setup()
@@ -175,6 +175,8 @@ def load(cli=None, env=None, file=None, fw=None, conf_path=None, cli_conf=None, 
             os.environ["GUNICORN_CMD_ARGS"] = " ".join(shlex.quote(x) for x in e)
         else:
             os.environ.pop("GUNICORN_CMD_ARGS", None)
+        if env_raw is not None:
+            os.environ["GUNICORN_CMD_ARGS"] = env_raw           # exactly as an administrator would write it
         FwApp.fw = fw
 
     def snapshot(app):
@@ -464,6 +466,30 @@ def _config_task(_):
             diff = [k for k in (snap1 if isinstance(snap1, dict) else {}) if isinstance(snap2, dict) and snap1[k] != snap2.get(k)]
             viols.append(violation("reload-differs-from-fresh-load:chdir-in-config", "%s sets chdir; reload with nothing changed: %s, fresh load: %s" % (
                 label, {k: snap1[k] for k in diff} if diff else snap1, {k: snap2[k] for k in diff} if diff else snap2), {"history": label}))
+    # GUNICORN_CMD_ARGS is split like a command line: characters that mean nothing special inside a word stay what they are
+    for raw, want in (("--name=web#1 --workers 3", {"proc_name": "web#1", "workers": 3}),
+                      ("--workers 3 --name web#1 --threads 5", {"proc_name": "web#1", "workers": 3, "threads": 5}),
+                      ("--name 'a b' --backlog 7", {"proc_name": "a b", "backlog": 7}),
+                      ("--name a\\ b --backlog 7", {"proc_name": "a b", "backlog": 7}),
+                      ("--name=x;y --workers 2", {"proc_name": "x;y", "workers": 2}),
+                      ("--name=$HOME --workers 2", {"proc_name": "$HOME", "workers": 2}),
+                      ("-b unix:/tmp/x#1.sock -w 2", {"bind": ["unix:/tmp/x#1.sock"], "workers": 2})):
+        evals += 1
+        status, snap = load(env_raw=raw)
+        if status != "ok":
+            viols.append(violation("env-splitting:load-failed", "GUNICORN_CMD_ARGS=%r: %s" % (raw, snap), {}))
+        elif any(snap[k] != v for k, v in want.items()):
+            viols.append(violation("env-splitting", "GUNICORN_CMD_ARGS=%r: effective %r, it says %r" % (raw, {k: snap[k] for k in want}, want), {}))
+    # a relative --chdir is relative to where the server was started, whatever the configuration file says about chdir
+    os.makedirs(os.path.join(d, "dirA", "dirB"), exist_ok=True)
+    for via in ("cli", "env"):
+        for filetext in ("chdir = %r\n" % os.path.join(d, "dirA"), None):
+            evals += 1
+            kw = {"cli": ["--chdir", "dirB"]} if via == "cli" else {"env": ["--chdir", "dirB"]}
+            status, snap = load(file=filetext, **kw)
+            if status != "ok" or snap["chdir"] != os.path.join(d, "dirB"):
+                viols.append(violation("relative-chdir-resolved-against-file", "--chdir dirB (%s), configuration file %s: effective chdir %r, expected %r" % (
+                    via, "sets chdir to dirA" if filetext else "absent", snap["chdir"] if status == "ok" else snap, os.path.join(d, "dirB")), {}))
     # a syntactically broken / missing file stops startup
     for text, label in (("workers = = 3\n", "syntax-error"), (None, "missing")):
         evals += 1
